@@ -311,7 +311,14 @@ PickAnnDef == /\ Mode = "anndef" /\ pick.k = "none"
               /\ \E r \in DefRefs, a \in DefArgs : pick' = [k |-> "anndef", r |-> r, a |-> a]
 PickBadType == /\ Mode = "badtype" /\ pick.k = "none"
                /\ \E st \in TypeSites, n \in BadTypes : pick' = [k |-> "badtype", site |-> st, n |-> n]
-Next == PickEx \/ PickAttr \/ PickRef \/ PickAnn \/ PickAnnDef \/ PickBadType
+\* a struct that extends nsa.Base, which enumerates its subtypes and lists nsa.S: "all subtypes must be listed".  where:
+\* the namespace of the extending struct, name: its name, listed: whether Base lists it.  A struct of another namespace
+\* that has the NAME of a listed subtype is not that subtype.
+SubCases == {[where |-> "nsa", name |-> "T", listed |-> TRUE], [where |-> "nsa", name |-> "T", listed |-> FALSE],
+             [where |-> "nsb", name |-> "T", listed |-> FALSE], [where |-> "nsb", name |-> "S", listed |-> FALSE]}
+SubtypeFits(c) == IF c.listed THEN "acc" ELSE "rej"
+PickSubtype == /\ Mode = "badtype" /\ pick.k = "none" /\ \E c \in SubCases : pick' = [k |-> "subtype", c |-> c]
+Next == PickEx \/ PickAttr \/ PickRef \/ PickAnn \/ PickAnnDef \/ PickBadType \/ PickSubtype
 Spec == Init /\ [][Next]_vars
 
 \* ------------------------------------------------------------- properties
@@ -323,6 +330,7 @@ Total == CASE pick.k = "exlit"  -> ExFits(XSchema(ETypes[pick.ti]), XExamples(pi
            [] pick.k = "annot"  -> AnnFits(pick.site, pick.ty, pick.a1, pick.a2) \in Verdicts
            [] pick.k = "anndef" -> AnnDefFits(pick.r, pick.a) \in Verdicts
            [] pick.k = "badtype" -> TypeNameFits(pick.site, pick.n) \in Verdicts
+           [] pick.k = "subtype" -> SubtypeFits(pick.c) \in Verdicts
            [] OTHER -> TRUE
 \* a default the schema itself declares is a value the rule accepts when a route writes it (the schema is consistent)
 DeclaredDefaultsFit == \A i \in DOMAIN ADecls : ADecls[i].d.k # "absent" => AttrFits(ASchema, ADecls[i], ADecls[i].d) \in {"acc", "unspec"}
@@ -352,6 +360,7 @@ Vector ==
            [mode |-> "docref", site |-> pick.site, tag |-> pick.tag, p |-> pick.p, verdict |-> RefFits(pick.site, pick.tag, pick.p)]
       [] pick.k = "anndef" -> [mode |-> "anndef", r |-> pick.r, a |-> pick.a, verdict |-> AnnDefFits(pick.r, pick.a)]
       [] pick.k = "badtype" -> [mode |-> "badtype", site |-> pick.site, n |-> pick.n, verdict |-> TypeNameFits(pick.site, pick.n)]
+      [] pick.k = "subtype" -> [mode |-> "subtype", c |-> pick.c, verdict |-> SubtypeFits(pick.c)]
       [] pick.k = "annot" ->
            [mode |-> "annot", site |-> pick.site, ty |-> pick.ty, a1 |-> pick.a1, a2 |-> pick.a2,
             verdict |-> AnnFits(pick.site, pick.ty, pick.a1, pick.a2)]
